@@ -22,7 +22,14 @@ type workerCheckpoint struct {
 
 func newCheckpoint(stats SamplingStats) checkpoint {
 	workers := make([]workerCheckpoint, 0, len(stats.Workers))
+	sampleFrom := stats.CatchupHead + 1
 	for _, w := range stats.Workers {
+		// a recent job is not resumed after restart, but creating it may have moved the catchup
+		// cursor past its height already. Let catchup start from that height again, so that it
+		// is not lost if the node stops while the recent header is still being sampled.
+		if w.JobType == recentJob && w.From < sampleFrom {
+			sampleFrom = w.From
+		}
 		// no need to resume recent jobs after restart. On the other hand, retry jobs will resume from
 		// failed heights map. it leaves only catchup jobs to be stored and resumed
 		if w.JobType == catchupJob {
@@ -34,7 +41,7 @@ func newCheckpoint(stats SamplingStats) checkpoint {
 		}
 	}
 	return checkpoint{
-		SampleFrom:  stats.CatchupHead + 1,
+		SampleFrom:  sampleFrom,
 		NetworkHead: stats.NetworkHead,
 		Failed:      stats.Failed,
 		Workers:     workers,
